@@ -24,6 +24,14 @@ static SOCK_COUNTER: AtomicU64 = AtomicU64::new(0);
 thread_local! {
     /// order of add_kill_switch and start_server for worlds created from now on (C18 varies it)
     pub static KILL_AFTER_START: std::cell::Cell<bool> = std::cell::Cell::new(false);
+    /// construct the server with `HttpServer::new_from_fd` on a listener bound by the harness
+    pub static SERVER_FROM_FD: std::cell::Cell<bool> = std::cell::Cell::new(false);
+}
+
+/// draw the construction variant of the next world(s) from the case bytes
+pub fn world_variant(s: &mut crate::src::Src) {
+    let from_fd = s.chance(100);
+    SERVER_FROM_FD.with(|c| c.set(from_fd));
 }
 
 pub fn scratch_dir() -> PathBuf {
@@ -224,7 +232,14 @@ impl World {
         let path = dir.join(format!("s{}.sock", SOCK_COUNTER.fetch_add(1, Ordering::Relaxed)));
         let _ = std::fs::remove_file(&path);
         let base = fd_set();
-        let mut server = HttpServer::new(&path).map_err(|e| format!("HttpServer::new: {:?}", e))?;
+        let mut server = if SERVER_FROM_FD.with(|c| c.get()) {
+            use std::os::unix::io::IntoRawFd;
+            let l = std::os::unix::net::UnixListener::bind(&path).map_err(|e| format!("bind: {}", e))?;
+            // SAFETY: the descriptor is solely owned and handed over
+            unsafe { HttpServer::new_from_fd(l.into_raw_fd()) }.map_err(|e| format!("HttpServer::new_from_fd: {:?}", e))?
+        } else {
+            HttpServer::new(&path).map_err(|e| format!("HttpServer::new: {:?}", e))?
+        };
         // the kill switch may be registered before or after the server is started
         let after_start = KILL_AFTER_START.with(|c| c.get());
         if after_start {
